@@ -188,6 +188,10 @@ class World:
         phys = ex._get_unused_physical_qubit()
         ex.inflight_phys.add(phys)
         n["rid"] += 1
+        if n["rid"] % 2 == 1:
+            # (a link layer written with numpy hands its integers over as numpy integers: same values)
+            import numpy as _np
+            phys = _np.int64(phys)
         resp = ql.LinkLayerOKTypeK(type=ql.ReturnType.OK_K, create_id=n["rid"], logical_qubit_id=phys, directionality_flag=1,
                                    sequence_number=n["rid"], purpose_id=socket, remote_node_id=9, goodness=1, goodness_time=1,
                                    bell_state=ql.BellState.PHI_PLUS)
